@@ -251,6 +251,11 @@ func (ge *GuardEngine) Sinks(fn *ssa.Function, env *Env, conds []Cond, chain []s
 			case *ssa.Call:
 				if f := x.Call.StaticCallee(); f != nil {
 					switch f.String() {
+					case "math/bits.Div64", "math/bits.Rem64", "math/bits.Div32", "math/bits.Rem32", "math/bits.Div", "math/bits.Rem":
+						// panic on a zero divisor (the quotient-overflow precondition hi < y is a loop invariant, not decided)
+						if len(x.Call.Args) == 3 && !isConstVal(x.Call.Args[2]) {
+							add(x, b, "div", ge.pv.Atom(x.Call.Args[2], env), "", -1, "div "+ge.pv.Atom(x.Call.Args[2], env))
+						}
 					case "encoding/hex.Decode":
 						if len(x.Call.Args) == 2 {
 							dst := x.Call.Args[0]
